@@ -331,6 +331,10 @@ func (ar *c40ActorRun) execFakePub(w *c40World, s c40Step) string {
 		if ar.curPub == nil {
 			return "err:no publisher"
 		}
+		// a session consults the configuration of its path while it runs (hooks, recording, limits)
+		if ar.curPub.Path.SafeConf() == nil {
+			return "err:nil conf"
+		}
 		for i := 0; i <= s.Arg; i++ {
 			w.writeMu.RLock()
 			if w.stopping.Load() {
